@@ -16,7 +16,8 @@ for d in sorted(os.listdir(ROOT + '/seeded')):
     os.makedirs(scratch)
     subprocess.run('cp -r /repo/habutax %s/ && cp -r /repo/tests %s/ 2>/dev/null; cd %s && patch -s -p1 < %s/patch.diff' % (scratch, scratch, scratch, p), shell=True, check=True)
     t0 = time.time()
-    env = dict(os.environ, HABUTAX_REPO=scratch)
+    os.makedirs('/tmp/mutrun_evidence', exist_ok=True)
+    env = dict(os.environ, HABUTAX_REPO=scratch, VERIF_EVIDENCE_DIR='/tmp/mutrun_evidence')   # the committed evidence stays that of the unchanged tree
     r = subprocess.run('./check %s --tier quick' % pid, shell=True, cwd=ROOT, env=env, stdout=subprocess.PIPE, stderr=subprocess.STDOUT, text=True)
     viol = [l for l in r.stdout.splitlines() if l.startswith('VIOLATION')]
     results[d] = {'property': pid, 'exit': r.returncode, 'caught': r.returncode == 1 and bool(viol), 'violation_lines': viol[:6],
